@@ -33,6 +33,7 @@ var scenarios = map[string]scenario{
 	"d22-force-push-expiry": {run: scenarioD22},
 	"d11-terminate-renewed": {run: scenarioD11},
 	"d23-renew-during-migration": {run: scenarioD23},
+	"d24-renew-after-revoked-grant": {run: scenarioD24},
 }
 
 // D17: a signature the victim once produced over an unrelated text is accepted as the
@@ -245,6 +246,34 @@ func scenarioD20(r *Recorder, accts []*Account) {
 	r.EndBlock()
 	r.BeginBlock()
 	m.renew(o, dataA, 3600)
+	r.EndBlock()
+}
+
+// D24: the latest version was written by a read-write grantee whose grant was then revoked. The
+// owner's renewal is charged and queued on the shards, but recording it in the model fails
+// (the renewal order is attributed to the former grantee, who may no longer write) and the
+// failure is ignored: terminating the model never refunds the renewal.
+func scenarioD24(r *Recorder, accts []*Account) {
+	m := newMiniWorld(r, accts, 1)
+	o, g := m.owners[0], m.owners[1]
+	r.BeginBlock()
+	m.store(o, dataA, dataA, 1, 1000000, 1, 3600, 100)
+	m.completeAll()
+	p := saotypes.PermissionProposal{Owner: o.did, DataId: dataA, ReadwriteDids: []string{g.did}}
+	r.UpdatePermission(m.gw, &saotypes.MsgUpdataPermission{Creator: m.gw.Bech(), Proposal: p, JwsSignature: SignJWS(&p, o.key, o.kid), Provider: m.gw.Bech()})
+	r.EndBlock()
+	r.BeginBlock()
+	m.store(g, dataA, dataA+"|bbbbbbbb-comm-4000-8000-00000000000b", 1, 1000000, 1, 3600, 100)
+	m.completeAll()
+	r.EndBlock()
+	r.BeginBlock()
+	p2 := saotypes.PermissionProposal{Owner: o.did, DataId: dataA}
+	r.UpdatePermission(m.gw, &saotypes.MsgUpdataPermission{Creator: m.gw.Bech(), Proposal: p2, JwsSignature: SignJWS(&p2, o.key, o.kid), Provider: m.gw.Bech()})
+	m.renew(o, dataA, 3600)
+	r.EndBlock()
+	r.BeginBlock()
+	t := saotypes.TerminateProposal{Owner: o.did, DataId: dataA}
+	r.Terminate(m.gw, &saotypes.MsgTerminate{Creator: m.gw.Bech(), Proposal: t, JwsSignature: SignJWS(&t, o.key, o.kid), Provider: m.gw.Bech()})
 	r.EndBlock()
 }
 
